@@ -205,11 +205,123 @@ def hungarian_oracle(c):
 
 
 # ----------------------------------------------------------------------------------------------
+# VisualVoting (visual_sort/voting.rs): best fit on the feature distances first, then SortVoting on what remains
+
+def parse_stream4(s):
+    if s in ("-", ""):
+        return []
+    out = []
+    for e in s.split(","):
+        f, t, a, x = e.split(":")
+        out.append((int(f), int(t), None if a == "-" else int(a), None if x == "-" else int(x)))
+    return out
+
+
+def fmt_stream4(st):
+    o = lambda v: "-" if v is None else str(v)
+    return ",".join("%d:%d:%s:%s" % (f, t, o(a), o(x)) for f, t, a, x in st) if st else "-"
+
+
+def load_visual(d):
+    c = {"kind": "visual", "thr_bits": int(d["thr"]), "maxd_bits": int(d["maxd"]), "minv": int(d["minv"]),
+         "stream4": parse_stream4(d["s"]), "res": d.get("r", ""), "raw": d["raw"]}
+    c["maxd"] = f32_bits_to_fraction(c["maxd_bits"])
+    c["thrz"] = c02.z_of_bits(c["thr_bits"])
+    c["stream"] = [(f, t, x) for f, t, a, x in c["stream4"]]        # the feature view, for eligible()
+    c["n"] = None
+    try:
+        if c["res"] == "PANIC":
+            c["V"], c["P"] = None, None
+        else:
+            ents = [] if c["res"] == "-" else [e.split(":") for e in c["res"].split(";")]
+            if any(len(e) != 3 or e[2] not in ("V", "P") for e in ents):
+                raise ValueError(c["res"])
+            c["V"] = {int(q): int(t) for q, t, k in ents if k == "V"}
+            c["P"] = [(int(q), int(t)) for q, t, k in ents if k == "P"]
+        c["malformed_answer"] = False
+    except ValueError:
+        c["V"], c["P"] = None, None
+        c["malformed_answer"] = True
+    return c
+
+
+def visual_replay_text(c):
+    return "visual thr=%d maxd=%d minv=%d s=%s" % (c["thr_bits"], c["maxd_bits"], c["minv"], fmt_stream4(c["stream4"]))
+
+
+def rerun_visual(c, stream4):
+    cc = dict(c)
+    cc["stream4"] = stream4
+    out = run_replay_lines([visual_replay_text(cc)])
+    ls = [l for l in out if l.startswith("visual ")]
+    return load_visual(kv(ls[0])) if ls else None
+
+
+def visual_expected(c):
+    """independent reading: (visual map claimant -> track or itself, remaining positional pairs, tie-free?)"""
+    el = eligible(c)
+    tie_free = bestfit_tie_free(c)
+    claims_on = defaultdict(list)
+    for (q, t), w in el.items():
+        claims_on[t].append(w)
+    vis = {}
+    for q in set(q for q, _ in el):
+        w, t = max((w, t) for (qq, t), w in el.items() if qq == q)
+        vis[q] = t if w >= max(claims_on[t]) else q
+    excluded = set(vis.values())
+    rem = [(f, t, c02.z_of_bits(a)) for f, t, a, _ in c["stream4"] if a is not None and f not in vis and t not in excluded]
+    return vis, rem, tie_free
+
+
+def remaining_from_answer(c):
+    """the positional sub-stream implied by the implementation's own Visual entries"""
+    excluded = set(c["V"].values())
+    return [(f, t, c02.z_of_bits(a)) for f, t, a, _ in c["stream4"] if a is not None and f not in c["V"] and t not in excluded]
+
+
+def visual_oracle(c):
+    if c["V"] is None:
+        return ("panic", "VisualVoting::winners panicked")
+    vis, rem, tie_free = visual_expected(c)
+    if tie_free:
+        if c["V"] != vis:
+            return ("visual-stage", "Visual entries %s, but best fit on the feature distances gives every claimant its heaviest claim "
+                    "(the track if it is the heaviest claimant of that track, else itself): %s" % (sorted(c["V"].items()), sorted(vis.items())))
+    else:
+        rem = remaining_from_answer(c)
+    both = [q for q, _ in c["P"] if q in c["V"]]
+    if both:
+        return ("claimant-in-positional-stage", "queries %s have a Visual and a Positional entry" % both)
+    for q, t in c["P"]:
+        if q in (vis if tie_free else c["V"]):
+            return ("claimant-in-positional-stage", "query %d made a visual claim but is answered by the positional stage" % q)
+        if t != q and t in set((vis if tie_free else c["V"]).values()):
+            return ("won-track-reused", "track %d was awarded visually and is given again by the positional stage to query %d" % (t, q))
+    F = c02.first_appearance([p[0] for p in rem])
+    T = c02.first_appearance([p[1] for p in rem])
+    if not rem:
+        return None if not c["P"] else ("positional-stage", "positional entries %s although nothing remains for the positional stage" % c["P"])
+    if len(set((f, t) for f, t, _ in rem)) != len(rem):
+        return None      # repeated positional pair: last one wins, outside the claim
+    r = c02.sort_oracle(rem, c["thrz"], len(F), len(T), c["P"])
+    if r is not None:
+        return ("positional-stage:" + r[0], r[1])
+    return None
+
+
+# ----------------------------------------------------------------------------------------------
 # model side
 
 def coq_dists(stream):
     return coq_list(["mk %s %s %s" % (n_lit(f), n_lit(t), "None" if b is None else "(Some %s)" % q_lit(f32_bits_to_fraction(b)))
                      for f, t, b in stream])
+
+
+def coq_visual_case(c):
+    items = ["mkv %s %s %s %s" % (n_lit(f), n_lit(t), "None" if a is None else "(Some %s)" % z_lit(c02.z_of_bits(a)),
+                                  "None" if x is None else "(Some %s)" % q_lit(f32_bits_to_fraction(x)))
+             for f, t, a, x in c["stream4"]]
+    return "run_visual %s %d %s" % (q_lit(c["maxd"]), c["minv"], coq_list(items))
 
 
 def coq_vote_case(c):
@@ -278,6 +390,7 @@ def run(chk):
     recs = [kv(l) for l in out.split("\n") if l.strip()]
     votes = [load_vote(d) for d in recs if d["kind"] in ("topn", "bestfit")]
     sorts = [c02.load_sortv(d) for d in recs if d["kind"] == "sortv"]
+    visuals = [load_visual(d) for d in recs if d["kind"] == "visual"]
     perms = [d for d in recs if d["kind"] == "perm"]
     chk.log("implementation ran %d topn/bestfit streams, %d SortVoting streams, %d permutation families (%d runs)"
             % (len(votes), len(sorts), len(perms), sum(int(d["nperm"]) for d in perms)))
@@ -310,6 +423,17 @@ def run(chk):
             if r is not None:
                 problems.append(("sortv:" + r[0], r[1], c, None))
 
+    for c in visuals:
+        hist["visual"] += 1
+        if c["malformed_answer"]:
+            problems.append(("visual:bad-entry", "an answer entry is not (track, voting type): %s" % c["res"][:200], c, None))
+            continue
+        r = visual_oracle(c)
+        if r is not None:
+            problems.append(("visual:" + r[0], r[1], c, visual_oracle))
+        if c["V"] and c["P"]:
+            nontrivial.add(c["raw"])
+
     # ---- order independence: every permutation of small streams, on the implementation
     perm_runs = 0
     perm_tie_skipped = 0
@@ -318,7 +442,11 @@ def run(chk):
         hist["perm_" + d["pkind"]] += 1
         if d["alt"] == "-":
             continue
-        if d["pkind"] == "sortv":
+        if d["pkind"] == "visual":
+            base = load_visual(dict(d, kind="visual"))
+            _, rem, tf = visual_expected(base)
+            tie_free = tf and len(set((f, t) for f, t, _ in rem)) == len(rem) and c02.best_partial(rem, base["thrz"])[1] == 1
+        elif d["pkind"] == "sortv":
             base = c02.load_sortv(dict(d, kind="sortv"))
             tie_free = base["wf"] and c02.best_partial(base["pairs"], base["thrz"])[1] == 1
         else:
@@ -352,14 +480,47 @@ def run(chk):
                     ties += 1
                 if txt is not None:
                     disagreements.append((txt, c))
+            vgood = [c for c in visuals if not c["malformed_answer"] and c["V"] is not None]
+            vvals = vlib.coq_eval(PREAMBLE, [coq_visual_case(c) for c in vgood], shard_size=max(10, len(vgood) // 32 + 1), tag="c17vis")
+            stage2 = []
+            for c, v in zip(vgood, vvals):
+                fw, rem, tie = vlib.parse_coq_value(v)
+                mfw = {int(q): int(t) for q, t in fw}
+                mrem = [(int(f), int(t), int(z)) for f, t, z in rem]
+                ties += 1 if tie else 0
+                if not tie:
+                    if mfw != c["V"]:
+                        disagreements.append(("visual stage: model %s, implementation %s" % (sorted(mfw.items()), sorted(c["V"].items())), c))
+                        continue
+                else:
+                    mrem = remaining_from_answer(c)
+                if len(set((f, t) for f, t, _ in mrem)) != len(mrem):
+                    continue
+                F = c02.first_appearance([p[0] for p in mrem])
+                T = c02.first_appearance([p[1] for p in mrem])
+                sc = {"kind": "sortv", "thrz": c["thrz"], "n": len(F), "cols": len(T), "pairs": mrem, "W": c["P"], "res": c["res"],
+                      "wf": c02.well_formed(mrem, c["thrz"], len(F), len(T)), "malformed_answer": False, "visual": c}
+                if not mrem:
+                    if c["P"]:
+                        disagreements.append(("positional entries although the model's positional sub-stream is empty", c))
+                    continue
+                sc["u"], sc["v"] = c02.hungarian_duals(c02.padded(mrem, c["thrz"], len(F), len(T))) if sc["wf"] else ([], [])
+                stage2.append(sc)
+            s2vals = vlib.coq_eval(c02.PREAMBLE, [c02.coq_sort_case(sc) for sc in stage2], shard_size=max(20, len(stage2) // 16 + 1), tag="c17vis2") if stage2 else []
+            for sc, v in zip(stage2, s2vals):
+                txt, info = c02.compare_sort_model(sc, vlib.parse_coq_value(v))
+                if info.get("bc", 0) > 1:
+                    ties += 1
+                if txt is not None:
+                    disagreements.append(("positional stage: " + txt, sc["visual"]))
         except (RuntimeError, AssertionError) as e:
             chk.broken.append("model evaluation failed: %s" % str(e)[-1500:])
     else:
         chk.broken.append("model Voting.vo not built")
 
     chk.coverage.update({
-        "evaluations": len(votes) + len(sorts) + perm_runs,
-        "streams_vs_model": len(votes) + len(sorts),
+        "evaluations": len(votes) + len(sorts) + len(visuals) + perm_runs,
+        "streams_vs_model": len(votes) + len(sorts) + len(visuals),
         "permutation_runs": perm_runs,
         "permutation_families_with_ties_accepted_either_way": perm_tie_skipped,
         "distinct_nontrivial": len(nontrivial),
@@ -380,9 +541,30 @@ def run(chk):
         key, text, c, orc = problems[0]
         rep = {"failures_total": len(problems), "broken": chk.broken}
         if c.get("permfam"):
-            rep.update({"input": (c02.sort_replay_text(c) if c["kind"] == "sortv" else vote_replay_text(c)),
+            rep.update({"input": (c02.sort_replay_text(c) if c["kind"] == "sortv" else visual_replay_text(c) if c["kind"] == "visual" else vote_replay_text(c)),
                         "permuted_input_stream": c["alt_stream"], "result": c["res"], "result_on_permuted": c["alt_res"],
                         "replay_cmd": "replay both streams with /verif/.cache/target/release/voting replay --file <file>"})
+        elif c["kind"] == "visual":
+            small = c
+            if orc is not None:
+                changed = True
+                while changed:
+                    changed = False
+                    for i in range(len(small["stream4"])):
+                        cand = rerun_visual(small, small["stream4"][:i] + small["stream4"][i + 1:])
+                        if cand is not None and not cand["malformed_answer"] and orc(cand) is not None:
+                            small, changed = cand, True
+                            break
+                r = orc(small)
+                if r is not None:
+                    key, text = "visual:" + r[0], r[1]
+            vis, rem, tf = visual_expected(small)
+            rep.update({"input": visual_replay_text(small), "implementation": small["res"],
+                        "decoded": {"positional_threshold_scaled": small["thrz"], "max_feature_distance": float(small["maxd"]), "min_votes": small["minv"],
+                                    "stream (query, track, positional weight*1e6, feature distance)":
+                                        [(f, t, None if a is None else c02.z_of_bits(a), None if x is None else float(f32_bits_to_fraction(x))) for f, t, a, x in small["stream4"]],
+                                    "expected_visual_entries": vis, "expected_positional_substream": rem, "tie_free": tf},
+                        "replay_cmd": "printf '%s\\n' '" + visual_replay_text(small) + "' > /tmp/c17.txt && /verif/.cache/target/release/voting replay --file /tmp/c17.txt"})
         elif c["kind"] == "sortv":
             small = c02.shrink_sort(c, lambda cc: (not cc["malformed_answer"]) and hungarian_oracle(cc) is not None) if c["wf"] and not c["malformed_answer"] else c
             rep.update({"input": c02.sort_replay_text(small), "implementation": small["res"], "integer_weights": small["pairs"]})
@@ -403,7 +585,7 @@ def run(chk):
         rep = {"broken": chk.broken}
         if disagreements:
             txt, c = disagreements[0]
-            rep["input"] = c02.sort_replay_text(c) if c["kind"] == "sortv" else vote_replay_text(c)
+            rep["input"] = c02.sort_replay_text(c) if c["kind"] == "sortv" else visual_replay_text(c) if c["kind"] == "visual" else vote_replay_text(c)
             rep["implementation"] = c["res"]
             rep["model_says"] = txt
             what += " model/implementation differ on %d cases: %s" % (len(disagreements), txt[:300])
@@ -426,6 +608,12 @@ def replay(chk, path):
         if d["kind"] in ("topn", "bestfit"):
             c = load_vote(d)
             r = None if c["malformed_answer"] else (topn_oracle(c) if d["kind"] == "topn" else bestfit_oracle(c))
+            print("oracle:", r)
+            bad = bad or r is not None or c["malformed_answer"]
+            results.append(c["res"])
+        elif d["kind"] == "visual":
+            c = load_visual(d)
+            r = None if c["malformed_answer"] else visual_oracle(c)
             print("oracle:", r)
             bad = bad or r is not None or c["malformed_answer"]
             results.append(c["res"])
